@@ -560,6 +560,36 @@ def scenario(rec, rng, cid):
                       "%s: result %r vs %r on a copy; force modified: %s"
                       % (m.identifier, r1, r2,
                          not np.array_equal(force, f0)), case)
+            # the details handed out belong to the caller: they must not
+            # share memory with the force array that was passed in
+            out = g.call("compute_poc", poc.compute_poc, force,
+                         m.identifier, ret_details=True)
+            det = out[1] if isinstance(out, tuple) else {}
+
+            def arrays(o):
+                if isinstance(o, np.ndarray):
+                    yield o
+                elif isinstance(o, dict):
+                    for v in o.values():
+                        yield from arrays(v)
+                elif isinstance(o, (list, tuple)):
+                    for v in o:
+                        yield from arrays(v)
+            shared = [a_ for a_ in arrays(det) if np.shares_memory(a_, force)]
+            rec.event("details dictionaries checked for aliasing")
+            rec.check(not shared,
+                      "aliasing/compute_poc/details-share-memory-with-force",
+                      "%s: %d array(s) of the returned details share memory "
+                      "with the force argument" % (m.identifier, len(shared)),
+                      case)
+            for a_ in arrays(det):
+                if a_.flags.writeable and a_.dtype.kind == "f":
+                    a_ *= 1e9         # e.g. unit conversion for a plot
+            rec.check(np.array_equal(force, f0),
+                      "argument-mutated/compute_poc/force-via-details",
+                      "%s: editing the returned details changed the force "
+                      "argument" % m.identifier, case)
+            force = f0.copy()
             clipped = poc.compute_preproc_clip_approach(force)
             c0 = clipped.copy()
             g.call("poc:" + m.identifier, m, clipped)
